@@ -36,6 +36,8 @@ def run(ctx):
     lib_py.unused_params(ctx, py, mods=("tables",), only=ps)
     lib_kind.py_lints(ctx, py, mods=("tables",), only=ps)
     lib_kind4.row_eager(ctx, py)
+    from . import lib_kind2
+    lib_kind2.keep_rows_atomic(ctx, P)
     lib_kind.dict_atomic(ctx, P)
     lib_kind.takeset_atomic(ctx, P)
     from . import lib_kind3
